@@ -90,14 +90,38 @@ func (r *Report) finish() int {
 	}
 	vacuous := 0
 	coverSat := 0
+	deadPaths := 0
+	retSat := map[string]bool{}
+	retAny := map[string]bool{}
 	for _, c := range r.covers {
 		solverS += c.Res.Seconds
+		isEntry := strings.HasSuffix(c.Name, "#cover[entry]")
+		if !isEntry {
+			retAny[c.Func] = true
+		}
 		switch c.Res.Status {
 		case "sat":
 			coverSat++
+			if !isEntry {
+				retSat[c.Func] = true
+			}
 		case "unsat":
+			if isEntry {
+				vacuous++
+				fmt.Printf("VACUOUS property=%s %s: %s is unsatisfiable\n", rc.prop, c.Name, c.Desc)
+			} else {
+				deadPaths++
+			}
+		default:
+			if !isEntry {
+				retSat[c.Func] = true // undecided cover: do not call it vacuous
+			}
+		}
+	}
+	for f := range retAny {
+		if !retSat[f] {
 			vacuous++
-			fmt.Printf("VACUOUS property=%s %s: %s is unsatisfiable\n", rc.prop, c.Name, c.Desc)
+			fmt.Printf("VACUOUS property=%s %s: no return path is reachable under the contract assumptions\n", rc.prop, f)
 		}
 	}
 	if rc.dump {
@@ -209,7 +233,7 @@ func (r *Report) finish() int {
 		"backends":                 backends,
 		"solver_seconds":           round3(solverS),
 		"load_seconds":             round3(r.loadS),
-		"vacuity":                  map[string]interface{}{"covers": len(r.covers), "covers_sat": coverSat, "covers_unsat": vacuous},
+		"vacuity":                  map[string]interface{}{"covers": len(r.covers), "covers_sat": coverSat, "vacuous": vacuous, "unreachable_return_paths": deadPaths},
 		"known_findings_matched":   knownHit,
 		"failed":                   violSamples,
 		"bounded":                  r.bounded,
